@@ -437,7 +437,12 @@ def cmd_check(pid, tier, seed):
         notes.append("%d further failing case(s) of already reported failure classes not listed" % suppressed)
     violations = deduped
     confirmed = []
-    for path, msg in violations:
+    CONFIRM_CAP = 6   # confirming is 3 replays per class, and a bisected run of cases for failures that depend on the process history:
+                      # on a badly broken tree dozens of classes would take the best part of an hour; six confirmed reports decide the check
+    for vi, (path, msg) in enumerate(violations):
+        if len(confirmed) >= CONFIRM_CAP:
+            notes.append("%d further failure class(es) not replayed: %d violations already confirmed" % (len(violations) - vi, len(confirmed)))
+            break
         part = find_part(chk, path)
         if part.get("kind", "pbt") != "pbt":
             confirmed.append((path, msg))
